@@ -7,7 +7,9 @@ Every observation is evaluated
   (R) in another warmed-up interpreter in REVERSE list order,
   (E) in an interpreter in which a fixed list of REJECTED calls was made first (FAULTS: unknown symbols on a private table, malformed
       strings, unusable argument types, unknown residues, untabulated ions - each must raise, and whatever it raises is discarded),
-and the five values (F, W first pass, W second pass, R, E) must be identical texts (floats are compared by repr).  (E) is the
+  (E_i) in one interpreter per rejected call of that list (in the combined history a later rejected call may consume or reset
+      what an earlier one left behind),
+and all values (F, W first pass, W second pass, R, E, E_i) must be identical texts (floats are compared by repr).  (E) is the
 stand-in for failure atomicity: a call that is rejected part-way must leave nothing behind that a later valid call can see.
 
 What this decides that a per-call contract cannot: order of first use (lazy registration on the wrong class, a loader that is
@@ -98,7 +100,7 @@ for el in pt.elements:
 formula("H2O@1").density; pt.neutron_sld("H2O@1"); pt.xray_sld("H2O@1", energy=8.0)
 '''
 
-FAULTS = r'''
+FAULT_SETUP = r'''
 from decimal import Decimal
 from fractions import Fraction
 def _rejected(code):
@@ -110,7 +112,10 @@ _Tq = private(mass, density)
 _Tq.Fe._mass = 60.0; _Tq.H._mass = 50.0; _Tq.H._density = 9.0; _Tq.O._mass = 2.0
 FAULT_OBJ["water"] = formula("H2O@1")
 FAULT_OBJ["silica"] = formula("SiO2@2.2")
-for _c in ["formula('Xx2O', table=_Tq)", "formula('H2O)', table=_Tq)", "formula('Fe2Xx3', table=_Tq)", "formula('Fe2Xx3')", "formula('Na{+}Cl{-}2)')",
+FAULT_OBJ["methane"] = formula("CH4")
+'''
+
+FAULT_CALLS = ["formula('Xx2O', table=_Tq)", "formula('H2O)', table=_Tq)", "formula('Fe2Xx3', table=_Tq)", "formula('Fe2Xx3')", "formula('Na{+}Cl{-}2)')",
            "formula('2g Si // 1mL C6H6')", "formula('5wt% Si // Xx')", "formula('1g H2O@1 // 3g Qq')",
            "formula([(1, pt.C), (Decimal('0.5'), pt.H), (0.5, pt.H)]).atoms", "formula([(0.5, [(Decimal(2), pt.H)]), (3, [(1, pt.O)])]).atoms",
            "formula([(1, pt.C), (0.5, pt.H), (0.5, pt.H), (1, [1, 2])]).atoms",
@@ -122,12 +127,14 @@ for _c in ["formula('Xx2O', table=_Tq)", "formula('H2O)', table=_Tq)", "formula(
            "cromermann.fxrayatq('Fe', 0.0, 4)", "pt.Fe.ion[4].xray.f0(0.0)", "cromermann.fxrayatstol('Xx', 0.0)",
            "pt.Fe.ion[9]", "pt.Fe[999]", "pt.elements.isotope('0-Fe')", "pt.elements.symbol('Xx')",
            "nsf.neutron_composite_sld([formula('H2O@1'), formula('D2O@1.11')], wavelength=[4.0, 5.0])([0.5, 0.5])",
-           "act.Sample('Co30Fe70', 1.0).calculate_activation(act.ActivationEnvironment(1e13), abundance=lambda iso: {}[iso])"]:
-    _rejected(_c)
-'''
+           "act.Sample('Co30Fe70', 1.0).calculate_activation(act.ActivationEnvironment(1e13), abundance=lambda iso: {}[iso])"]
+
+FAULTS = FAULT_SETUP + "\nfor _c in %r:\n    _rejected(_c)\n" % (FAULT_CALLS,)
 
 # (tags, name, program ending in `result = ...`)
 OBSERVATIONS = [
+    # first in the list on purpose: a formula object that was built BEFORE any rejected call, asked before anything else is built
+    (("C02", "C19"), "counts of a formula object built before anything was rejected", "f = FAULT_OBJ.get('methane') or formula('CH4'); result = [atoms(f), f.mass, str(f.hill), f.charge]; check = atoms(f) == S({pt.C: 1, pt.H: 4})"),
     # ---- densities and masses reached through isotopes / ions first
     (("C01", "C06", "C12"), "density of 'D'", "result = formula('D').density"),
     (("C01", "C06", "C12"), "density of 'O[18]2'", "result = formula('O[18]2').density"),
@@ -277,7 +284,7 @@ def task_observations(tier, seed, arg):
     tags = set((arg or {}).get("tags") or []) if isinstance(arg, dict) else set()
     obs = [o for o in OBSERVATIONS if not tags or tags & set(o[0])]
     R = Result("each of %d fixed observations gives the same value as the first use of the library in a fresh interpreter, in a warmed-up interpreter "
-               "(twice, in list order), in a warmed-up interpreter in reverse order and in an interpreter that made a fixed list of rejected calls first" % len(obs), False)
+               "(twice, in list order), in a warmed-up interpreter in reverse order, in an interpreter that made a fixed list of rejected calls first and in one interpreter per rejected call" % len(obs), False)
     codes = [o[2] for o in obs]
     fresh_progs = [PRELUDE + "\nprint('RESULT ' + json.dumps(run(%r)))" % c for c in codes]
     warm = PRELUDE + WARMUP + "\ncodes = %r\nfirst = [run(c) for c in codes]\nsecond = [run(c) for c in codes]\nprint('RESULT ' + json.dumps([first, second]))" % (codes,)
@@ -286,17 +293,29 @@ def task_observations(tier, seed, arg):
     with ThreadPoolExecutor(max_workers=min(12, os.cpu_count() or 4)) as pool:
         futs = [pool.submit(_child, tree, p) for p in fresh_progs]
         fw, fr, fe = pool.submit(_child, tree, warm), pool.submit(_child, tree, rev), pool.submit(_child, tree, flt)
+        # (warmed up first: these histories are about what a REJECTED call leaves behind; order of first use is what F, W and R decide,
+        # and an unwarmed history would report the known first-use findings of C09/C10 a second time under the key of a later observation)
+        # one interpreter per rejected call as well: in the combined history a later rejected call may consume or reset what
+        # an earlier one left behind (a work list emptied by the next success, a switch reset by the next successful parse)
+        singles = [pool.submit(_child, tree, PRELUDE + WARMUP + FAULT_SETUP + "\n_rejected(%r)\ncodes = %r\nout = [run(c) for c in codes]\nprint('RESULT ' + json.dumps(out))" % (fc, codes))
+                   for fc in FAULT_CALLS]
         fresh = [f.result() for f in futs]
         w, r, e = fw.result(), fr.result(), fe.result()
+        singles = [f.result() for f in singles]
+    for fc, x in zip(FAULT_CALLS, singles):
+        if isinstance(x, dict):
+            raise RuntimeError("interpreter after the rejected call %s failed: %s" % (fc, x.get("crash")))
     if isinstance(w, dict) or isinstance(r, dict) or isinstance(e, dict):
         raise RuntimeError("warm interpreter failed: %s" % (([x for x in (w, r, e) if isinstance(x, dict)][0]).get("crash"),))
     w1, w2 = w
-    for (tg, name, code), f, a, b, c, e1 in zip(obs, fresh, w1, w2, r, e):
-        R.ok(5, (name,))
+    for idx, ((tg, name, code), f, a, b, c, e1) in enumerate(zip(obs, fresh, w1, w2, r, e)):
+        R.ok(5 + len(FAULT_CALLS), (name,))
         if "crash" in f:
             R.violation("independence:%s:fresh_crash" % name, "observation %r as the first use of the library: the interpreter died" % name, {"observation": name, "program": code}, f["crash"][-200:])
             continue
         vals = {"fresh interpreter": f, "warm, first pass": a, "warm, second pass": b, "warm, reverse order": c, "after rejected calls": e1}
+        for fc, x in zip(FAULT_CALLS, singles):
+            vals["after the rejected call %s" % fc] = x[idx]
         bad = [k for k, v in vals.items() if "raised" in v or v.get("check") is False]
         if bad:
             R.violation("independence:%s:wrong" % name, "observation %r %s (%s)" % (name, "raises" if any("raised" in vals[k] for k in bad) else "does not have the documented value", ", ".join(bad)),
